@@ -30,6 +30,11 @@ EXTENDS Resolve
 
 CONSTANTS DEV_CacheHitNoInfoMerge, MUT_CacheAfterRefs
 
+\* Further seeded mutations (MUT_Resolver = "none": the code as it is; the others must be refuted by TLC):
+\*   "pointerMemo"  JSON-Pointer fragments are memoised per target DOCUMENT by their text - although a pointer
+\*                  is evaluated against the RESOURCE the rest of the URI selects
+CONSTANT MUT_Resolver
+
 VARIABLES U,        \* the universe (constant along a behaviour)
           dr,       \* its draft
           faults,   \* set of URIs on which the Loader returns an error
@@ -60,8 +65,11 @@ FragResult(A, r, res, inf) ==
   LET D == Doc(U, res.d)
   IN CASE r.ref.f.k = "none" -> [st |-> "ok", t |-> res]
        [] r.ref.f.k = "ptr" ->
-            IF HasPath(NodeAtS(D.s, res.p), r.ref.f.p) THEN [st |-> "ok", t |-> Addr(res.d, res.p \o r.ref.f.p)]
-            ELSE [st |-> "err"]
+            LET RefOf(t) == Node(U, t.a)[IF t.kind = "ref" THEN "ref" ELSE "dynamicRef"]
+                memo == {t \in targets : t.t.d = res.d /\ RefOf(t).f.k = "ptr" /\ RefOf(t).f.p = r.ref.f.p /\ r.ref.f.p # <<>>}
+            IN IF MUT_Resolver = "pointerMemo" /\ memo # {} THEN [st |-> "ok", t |-> (CHOOSE t \in memo : TRUE).t]
+               ELSE IF HasPath(NodeAtS(D.s, res.p), r.ref.f.p) THEN [st |-> "ok", t |-> Addr(res.d, res.p \o r.ref.f.p)]
+               ELSE [st |-> "err"]
        [] r.ref.f.k = "name" ->
             IF res.d \notin inf[A.d] THEN [st |-> "panic"]       \* rs.resolvedInfos[referencedSchema] is nil
             ELSE LET c == {p \in ResNodes(dr, D, res.p) : r.ref.f.a \in AnchorsOf(dr, NodeAtS(D.s, p))}
